@@ -51,13 +51,13 @@ var (
 )
 
 var profMem = raftsim.Profile{Name: "c03-mem", Layer: 2, MinSteps: 40, MaxSteps: 500, StorageW: [4]int{1, 0, 0, 0},
-	CrashPct: []int{1, 3, 8, 15}, MacroPct: 6, MacroW: [7]int{10, 4, 2, 1, 2, 1, 5}, MembershipPct: 35, FinalHeal: true, HealTimeouts: 60}
+	CrashPct: []int{1, 3, 8, 15}, MacroPct: 6, MacroW: [7]int{10, 4, 2, 1, 2, 1, 5}, MembershipPct: 45, FinalHeal: true, HealTimeouts: 60}
 
 var profRocksQuick = raftsim.Profile{Name: "c03-rocks", Layer: 2, MinSteps: 40, MaxSteps: 400, StorageW: [4]int{0, 3, 1, 0},
-	CrashPct: []int{1, 3, 8, 15}, MacroPct: 6, MacroW: [7]int{10, 4, 2, 1, 2, 1, 6}, MembershipPct: 35, FinalHeal: true, HealTimeouts: 60}
+	CrashPct: []int{1, 3, 8, 15}, MacroPct: 6, MacroW: [7]int{10, 4, 2, 1, 2, 1, 6}, MembershipPct: 45, FinalHeal: true, HealTimeouts: 60}
 
 var profRocksThorough = raftsim.Profile{Name: "c03-rocks-thorough", Layer: 2, MinSteps: 40, MaxSteps: 400, StorageW: [4]int{0, 3, 3, 1},
-	CrashPct: []int{1, 3, 8, 15}, MacroPct: 6, MacroW: [7]int{10, 4, 2, 1, 2, 1, 6}, MembershipPct: 35, FinalHeal: true, HealTimeouts: 60}
+	CrashPct: []int{1, 3, 8, 15}, MacroPct: 6, MacroW: [7]int{10, 4, 2, 1, 2, 1, 6}, MembershipPct: 45, FinalHeal: true, HealTimeouts: 60}
 
 var profL3 = raftsim.Profile{Name: "c03-l3", Layer: 3, StorageW: [4]int{2, 1, 1, 0}, CrashPct: []int{0, 3}, MacroPct: 10,
 	MacroW: [7]int{3, 0, 1, 2, 2, 0, 3}, MembershipPct: 20, MinPhases: 2, MaxPhases: 8, FinalHeal: true, HealTimeouts: 60}
